@@ -60,8 +60,8 @@ MUTANTS = [
     ('too-few-lost', ['C11'], 'src/mean.rs', '        if self.count < 2 {\n            return Err(CIError::TooFewSamples(self.count));\n        }\n        let n = self.count as f64;', '        let n = self.count as f64;', 'sample-size guard lost (panic for n < 2)'),
     ('finite-lost', ['C11'], 'src/mean.rs', '        if !mean.is_finite() || !std_dev.is_finite() {\n            return Err(CIError::InvalidInputData);\n        }', '', 'finiteness guard lost (Ok(NaN))'),
     ('significant-underflow', ['C11'], 'src/proportion.rs', '    && (population > successes)\n', '', 'is_significant underflows for k > n'),
-    ('upper-kind-swapped', ['C10', 'C04'], 'src/comparison.rs', '            Confidence::UpperOneSided(_) => Ok(Interval::new_upper(lo)),\n            Confidence::LowerOneSided(_) => Ok(Interval::new_lower(hi)),\n        }\n    }\n\n    ///\n    /// Compute the confidence interval on the difference of the means of unpaired',
-     '            Confidence::UpperOneSided(_) => Ok(Interval::new_lower(hi)),\n            Confidence::LowerOneSided(_) => Ok(Interval::new_upper(lo)),\n        }\n    }\n\n    ///\n    /// Compute the confidence interval on the difference of the means of unpaired', 'swapped kinds for unpaired one-sided results'),
+    ('upper-kind-swapped', ['C10', 'C04'], 'src/comparison.rs', '            Confidence::UpperOneSided(_) => Ok(Interval::new_upper(lo)),\n            Confidence::LowerOneSided(_) => Ok(Interval::new_lower(hi)),\n        }\n    }\n\n    ///\n    /// Compute the confidence interval of the difference between the means of the two samples.',
+     '            Confidence::UpperOneSided(_) => Ok(Interval::new_lower(hi)),\n            Confidence::LowerOneSided(_) => Ok(Interval::new_upper(lo)),\n        }\n    }\n\n    ///\n    /// Compute the confidence interval of the difference between the means of the two samples.', 'swapped kinds for unpaired one-sided results'),
 ]
 
 ALL = ['C01', 'C02', 'C03', 'C04', 'C05', 'C06', 'C07', 'C08', 'C09', 'C10', 'C11', 'C13', 'C14', 'C15', 'C16', 'C17', 'C18', 'C19']
